@@ -258,6 +258,9 @@ def run(ctx):
     gprog = ctx.program(names=["ncmpio_i_getput.c"])
     nr = r8recsplit.check(ctx, ctx.need_fn(gprog, "ncmpio_add_record_requests"), "R8.recsplit")
     ctx.require(nr >= 90, "R8.recsplit: only %d requests evaluated" % nr)
+    from rules import r5recskip
+    ctx.rule("R5.recskip", "where the record dimension is dropped, every per-dimension array handed on with the reduced count is advanced")
+    r5recskip.check(ctx, prog, "R5.recskip", min_instances=2)
     from rules import r8contig
     ctx.rule("R8.contig", "a request classified contiguous by is_request_contiguous is one run of consecutive elements (bounded)")
     fprog = ctx.program(names=["ncmpio_filetype.c"])
